@@ -105,7 +105,18 @@ let handle (p : string) : string =
     let hist = List.map (fun e -> fst (parse_req e)) (String.split_on_char '/' seq) in
     let acks outs = List.length (List.filter (fun o -> match o with
         | [(_, Some r)] -> int_of_n r.r_type = 0 | _ -> false) outs) in
-    if kind = "dummy" then begin
+    if kind = "advdimmer" then begin
+      let outs, st = ad_run cfg (n_of_string uid) hist ad_init in
+      let b x = if x then n_of_int 1 else N0 in
+      let t3 (x, y) z = [x; y; z] and t4 ((x, y), z) w = [x; y; z; w] in
+      let (mi, ms) = st.ad_min and (fa, fl) = st.ad_fail and (sa, sl) = st.ad_startup in
+      Printf.sprintf "t=%s;a=%s;p=%s;class=resp:advdimmer:lock%d" (String.concat "/" (List.map replies_s outs))
+        (nlist_s ([b st.ad_ident; st.ad_start; st.ad_pin; st.ad_max_level; st.ad_mode; st.ad_burn; b st.ad_post; st.ad_active;
+                   st.ad_curve; st.ad_resp; st.ad_lock; st.ad_freq; st.ad_scene; st.ad_level; st.ad_merge]
+                  @ t3 mi ms @ t4 fa fl @ t4 sa sl))
+        (nlist_s (List.concat (List.map (fun (((u, f), w), pr) -> [u; f; w; pr]) st.ad_presets)))
+        (int_of_n st.ad_lock)
+    end else if kind = "dummy" then begin
       (match String.split_on_char '|' init with
        | [clk; um; up; uf; net; sens] ->
          (match commas clk with
